@@ -8,6 +8,7 @@
   (GoBT/Driver/C01.lean, `txid`); its agreement with Tx.TxID/TxIDBytes is a correspondence obligation.
 -/
 import GoBT.Tx.WireLemmas
+import GoBT.Script.WriteReviewLib
 namespace GoBT.C01
 open GoBT
 
@@ -343,5 +344,13 @@ def sampleTx : Tx :=
 example : sampleTx.wf ∧ ¬ sampleTx.ambiguous :=
   ⟨by simp [-List.reduceReplicate, Tx.wf, Input.wf, Output.wf, sampleTx, optLen],
    by simp [-List.reduceReplicate, Tx.ambiguous, sampleTx]⟩
+
+/-- Regenerated fact (go/ssa write-site table of packages bt and bscript, `Gen/WritesLib.lean`): in serialisation every
+    store, `copy`, `append` and every call that writes through a parameter or a `*Script` targets a buffer allocated in the
+    same function (or is a reviewed part of the function's contract), and every byte slice handed to another package
+    goes to a reviewed read-only function (GoBT/Script/WriteReviewLib.lean).  Code that appends to or writes into a
+    slice it was handed — a previous-output script, a caller's hash, a destination's old buffer — adds a row with a
+    `param:` / `field:` / `deref:` origin and breaks this obligation. -/
+theorem lib_writes_only_fresh_buffers : GoBT.Script.WriteReviewLib.writesOkFor "C01" = true := by decide +kernel
 
 end GoBT.C01
